@@ -197,7 +197,7 @@ func (a *Agg) ok() bool {
 		if strings.Contains(a.Name, "cover-return") {
 			return true // informational; at least one reachable return is required per function (checked separately)
 		}
-		return a.Status == "sat"
+		return a.Status != "unsat"
 	}
 	if a.Must {
 		return a.Status != "unsat"
